@@ -204,6 +204,22 @@ func (w *cworld) noteRequest(rec []byte) {
 	}
 }
 
+// MethodName varies the method name of the k-th operation: most are plain,
+// some carry characters an encoder has to escape (control bytes, DEL, quotes,
+// a non-BMP rune) - legal in a method name and invisible to the scripts, which
+// identify requests by their parameters.
+func MethodName(base string, k int) string {
+	switch k % 7 {
+	case 2:
+		return base + "\x01\x7f"
+	case 4:
+		return base + "\"\\<\U000e0001"
+	case 6:
+		return base + "\v\a é"
+	}
+	return base
+}
+
 func badParams(kind string, good any) any {
 	switch kind {
 	case "chan":
@@ -283,7 +299,7 @@ func (w *cworld) exec(i int, st CStep) {
 			params = badParams(st.BadParams, params)
 			if st.Op == "callresult" {
 				var out json.RawMessage
-				err := w.cli.CallResult(ctx, "m", params, &out)
+				err := w.cli.CallResult(ctx, MethodName("m", st.K), params, &out)
 				class, code, data := classify(err)
 				if err == nil {
 					data = string(out)
@@ -291,7 +307,7 @@ func (w *cworld) exec(i int, st CStep) {
 				w.log(CEvent{Kind: "op-ret", K: st.K, Class: class, Code: code, Data: data})
 				return
 			}
-			rsp, err := w.cli.Call(ctx, "m", params)
+			rsp, err := w.cli.Call(ctx, MethodName("m", st.K), params)
 			class, code, data := classify(err)
 			e := CEvent{Kind: "op-ret", K: st.K, Class: class, Code: code, Data: data}
 			if rsp != nil {
@@ -306,7 +322,7 @@ func (w *cworld) exec(i int, st CStep) {
 		go func() {
 			defer w.ops.Done()
 			defer cancel()
-			err := w.cli.Notify(ctx, "n", badParams(st.BadParams, map[string]int{"op": st.K, "i": 0}))
+			err := w.cli.Notify(ctx, MethodName("n", st.K), badParams(st.BadParams, map[string]int{"op": st.K, "i": 0}))
 			class, code, data := classify(err)
 			w.log(CEvent{Kind: "op-ret", K: st.K, Class: class, Code: code, Data: data})
 		}()
@@ -319,7 +335,7 @@ func (w *cworld) exec(i int, st CStep) {
 			defer cancel()
 			var specs []jrpc2.Spec
 			for j, note := range st.Specs {
-				specs = append(specs, jrpc2.Spec{Method: "m", Params: map[string]int{"op": st.K, "i": j}, Notify: note})
+				specs = append(specs, jrpc2.Spec{Method: MethodName("m", st.K+j), Params: map[string]int{"op": st.K, "i": j}, Notify: note})
 			}
 			if st.BadParams != "" && len(specs) > 0 {
 				j := len(specs) / 2
